@@ -4,6 +4,9 @@ Property theorems about `Glotaran.C02` (lean/GlotaranModel/C02.lean).  Helper le
 GlotaranProofs/Lemmas/C02.lean.
 -/
 import GlotaranProofs.Lemmas.C02
+import GlotaranProofs.Lemmas.C02Align
+import GlotaranProofs.Lemmas.C02Combine
+import GlotaranProofs.Lemmas.C02Length
 namespace Glotaran.C02
 open Glotaran.LinAlg
 
@@ -111,6 +114,200 @@ theorem constraints_remove_exactly (cons : List Constraint) (x : Rat) (lm : LMat
     (applyConstraintsAt cons x lm).labels =
       lm.labels.filter (fun l => !(cons.any (fun c => c.target == l && c.appliesAt x))) :=
   constraints_labels cons x lm
+
+/-- **Columns of surviving labels are untouched by `apply_constraints`**: for every label that
+    survives, its column in the reduced matrix is its column in the original matrix. -/
+theorem constraints_keep_columns (cons : List Constraint) (x : Rat) (lm : LMat2)
+    (hL : lm.labels.Nodup) (hrows : ∀ r ∈ lm.m, r.length = lm.labels.length)
+    (l : String) (hl : l ∈ (applyConstraintsAt cons x lm).labels) :
+    colOf (applyConstraintsAt cons x lm).labels (applyConstraintsAt cons x lm).m l =
+      colOf lm.labels lm.m l :=
+  constraints_keep_columns_lem cons x lm hL hrows l hl
+
+example : "s1" ∈ (applyConstraintsAt [⟨false, "s2", none⟩] 1 ⟨["s1", "s2"], [[1, 2], [3, 4]]⟩).labels ∧
+    colOf (applyConstraintsAt [⟨false, "s2", none⟩] 1 ⟨["s1", "s2"], [[1, 2], [3, 4]]⟩).labels
+      (applyConstraintsAt [⟨false, "s2", none⟩] 1 ⟨["s1", "s2"], [[1, 2], [3, 4]]⟩).m "s1" = some [1, 3] := by
+  decide
+
+/-! ### the reduced problem is the constrained full problem
+
+`WF lm` : distinct labels, one column per label.
+`NoChain rels L x` : among the relations that apply at `x` on labels `L` (target present, interval
+applies, source present) the targets are pairwise distinct and no source is a target. -/
+
+/-- **The reduced matrix applied to reduced coefficients equals the full matrix applied to the
+    coefficients `retrieve_clps` expands them to** (zeros for constrained labels, `param · source`
+    for related targets): the constrained model is exactly what is fitted. -/
+theorem reduced_problem_equiv (mi : ModelItems) (x : Rat) (lm : LMat2) (hwf : WF lm)
+    (hnc : NoChain mi.relations lm.labels x) (c : Vec)
+    (hc : c.length = (reduceAt mi x lm).labels.length) :
+    mulVec (reduceAt mi x lm).m c =
+      mulVec lm.m (retrieveClps mi lm.labels (reduceAt mi x lm).labels c x) :=
+  reduced_problem_equiv_aux mi x lm hwf hnc c hc
+
+/-- relations only -/
+theorem relations_span (mi : ModelItems) (x : Rat) (lm : LMat2) (hwf : WF lm)
+    (hcons : mi.constraints = []) (hnc : NoChain mi.relations lm.labels x) (c : Vec)
+    (hc : c.length = (applyRelationsAt mi.relations x lm).labels.length) :
+    mulVec (applyRelationsAt mi.relations x lm).m c =
+      mulVec lm.m (retrieveClps mi lm.labels (applyRelationsAt mi.relations x lm).labels c x) := by
+  have h : reduceAt mi x lm = applyRelationsAt mi.relations x lm := by
+    rw [reduceAt, hcons, applyConstraintsAt_nil]
+  have := reduced_problem_equiv mi x lm hwf hnc c (by rw [h]; exact hc)
+  rwa [h] at this
+
+/-- constraints only: dropping columns = fixing the dropped coefficients at `0` -/
+theorem constraints_span (mi : ModelItems) (x : Rat) (lm : LMat2) (hwf : WF lm)
+    (hrel : mi.relations = []) (c : Vec)
+    (hc : c.length = (applyConstraintsAt mi.constraints x lm).labels.length) :
+    mulVec (applyConstraintsAt mi.constraints x lm).m c =
+      mulVec lm.m (retrieveClps mi lm.labels (applyConstraintsAt mi.constraints x lm).labels c x) := by
+  have h : reduceAt mi x lm = applyConstraintsAt mi.constraints x lm := by
+    rw [reduceAt, hrel, applyRelationsAt_nil]
+  have hnc : NoChain mi.relations lm.labels x := by rw [hrel]; simp [NoChain]
+  have := reduced_problem_equiv mi x lm hwf hnc c (by rw [h]; exact hc)
+  rwa [h] at this
+
+/-- non-vacuity: s2 = 3·s1 (relation), s3 constrained to zero, s4 free -/
+example :
+    let mi : ModelItems := { relations := [⟨"s1", "s2", 3, none⟩], constraints := [⟨false, "s3", none⟩] }
+    let lm : LMat2 := ⟨["s1", "s2", "s3", "s4"], [[1, 2, 3, 4], [5, 6, 7, 8]]⟩
+    WF lm ∧ NoChain mi.relations lm.labels 1 ∧ (reduceAt mi 1 lm).labels = ["s1", "s4"] ∧
+      (reduceAt mi 1 lm).m = [[7, 4], [23, 8]] ∧
+      retrieveClps mi lm.labels (reduceAt mi 1 lm).labels [2, 5] 1 = [2, 6, 0, 5] := by
+  decide +kernel
+
+/-- **Chained relations break the equivalence** (s2 = 3·s1, s3 = 2·s2): the reduced matrix treats
+    s3 as `2 · 0`, `retrieve_clps` reports `2 · 3 · s1` — this is why `NoChain` is assumed. -/
+theorem reduced_problem_equiv_counterexample :
+    let mi : ModelItems := { relations := [⟨"s1", "s2", 3, none⟩, ⟨"s2", "s3", 2, none⟩] }
+    let lm : LMat2 := ⟨["s1", "s2", "s3"], [[1, 0, 0], [0, 1, 0], [0, 0, 1]]⟩
+    WF lm ∧ ¬ NoChain mi.relations lm.labels 0 ∧ [(1 : Rat)].length = (reduceAt mi 0 lm).labels.length ∧
+      mulVec (reduceAt mi 0 lm).m [1] = [1, 3, 0] ∧
+      mulVec lm.m (retrieveClps mi lm.labels (reduceAt mi 0 lm).labels [1] 0) = [1, 3, 6] := by
+  decide +kernel
+
+/-- the same for every axis value `x` (no intervals) -/
+theorem reduced_problem_equiv_counterexample_all (x : Rat) :
+    let mi : ModelItems := { relations := [⟨"s1", "s2", 3, none⟩, ⟨"s2", "s3", 2, none⟩] }
+    let lm : LMat2 := ⟨["s1", "s2", "s3"], [[1, 0, 0], [0, 1, 0], [0, 0, 1]]⟩
+    mulVec (reduceAt mi x lm).m [1] ≠
+      mulVec lm.m (retrieveClps mi lm.labels (reduceAt mi x lm).labels [1] x) := by
+  intro mi lm
+  have h1 : reduceAt mi x lm = reduceAt mi 0 lm := rfl
+  have h2 : ∀ r : List String, retrieveClps mi lm.labels r [1] x = retrieveClps mi lm.labels r [1] 0 :=
+    fun _ => rfl
+  rw [h1, h2]
+  decide +kernel
+
+/-! ### entries of the retrieved coefficients -/
+
+/-- **A label that is dropped from the reduced problem and is not the target of an applying
+    relation gets the coefficient `0`.** -/
+theorem retrieve_zero_on_constrained (mi : ModelItems) (x : Rat) (lm : LMat2) (c : Vec) (l : String)
+    (hl : l ∈ lm.labels) (hnot : l ∉ (reduceAt mi x lm).labels)
+    (hnt : ∀ r ∈ mi.relations,
+      (lm.labels.contains r.target && applies r.interval x && lm.labels.contains r.source) = true →
+        r.target ≠ l) :
+    (retrieveClps mi lm.labels (reduceAt mi x lm).labels c x).getD (lm.labels.idxOf l) 0 = 0 :=
+  retrieve_zero_aux mi x lm c l hl hnot hnt
+
+/-- **The coefficient of a related target is exactly `param ·` the coefficient of its source.** -/
+theorem retrieve_related_exact (mi : ModelItems) (full reduced : List String) (c : Vec) (x : Rat)
+    (hnc : NoChain mi.relations full x) (r : Relation) (hr : r ∈ mi.relations)
+    (ha : (full.contains r.target && applies r.interval x && full.contains r.source) = true) :
+    (retrieveClps mi full reduced c x).getD (full.idxOf r.target) 0 =
+      r.param * (retrieveClps mi full reduced c x).getD (full.idxOf r.source) 0 :=
+  retrieve_related_aux mi full reduced c x hnc r hr ha
+
+example :
+    let mi : ModelItems := { relations := [⟨"s1", "s2", 3, none⟩], constraints := [⟨false, "s3", none⟩] }
+    let lm : LMat2 := ⟨["s1", "s2", "s3", "s4"], [[1, 2, 3, 4], [5, 6, 7, 8]]⟩
+    "s3" ∈ lm.labels ∧ "s3" ∉ (reduceAt mi 1 lm).labels ∧
+    (∀ r ∈ mi.relations,
+      (lm.labels.contains r.target && applies r.interval 1 && lm.labels.contains r.source) = true →
+        r.target ≠ "s3") ∧
+    NoChain mi.relations lm.labels 1 ∧
+    (∃ r ∈ mi.relations,
+      (lm.labels.contains r.target && applies r.interval 1 && lm.labels.contains r.source) = true) := by
+  decide
+
+/-! ### linked groups: stacking on the union labels -/
+
+/-- the union label list has no duplicates and contains exactly the labels occurring in some list -/
+theorem unionLabels_nodup (ls : List (List String)) (h : ∀ l ∈ ls, l.Nodup) :
+    (unionLabels ls).Nodup ∧ ∀ a, a ∈ unionLabels ls ↔ ∃ l ∈ ls, a ∈ l :=
+  ⟨unionLabels_nodup_lem ls h, unionLabels_mem ls⟩
+
+example : unionLabels [["a", "b"], ["b", "c"]] = ["a", "b", "c"] ∧
+    ∀ l ∈ [["a", "b"], ["b", "c"]], l.Nodup := by decide
+
+/-- **Two or more datasets at one aligned index are stacked on the union of their labels, every
+    row of every block being kept.** -/
+theorem alignMatrices_rows (bs : List (LMat2 × Rat)) (h : 2 ≤ bs.length) :
+    (alignMatrices bs).labels = unionLabels (bs.map (·.1.labels)) ∧
+    (alignMatrices bs).m.length = (bs.map (·.1.m.length)).sum ∧
+    ∀ r ∈ (alignMatrices bs).m, r.length = (alignMatrices bs).labels.length :=
+  ⟨alignMatrices_labels bs h, alignMatrices_rows_length bs h, alignMatrices_row_width bs h⟩
+
+/-- a single dataset at an aligned index keeps its labels; the dataset scale is applied too -/
+theorem alignMatrices_single (b : LMat2 × Rat) :
+    alignMatrices [b] = ⟨b.1.labels, mscale b.2 b.1.m⟩ :=
+  alignMatrices_single_lem b
+
+example :
+    (alignMatrices [(⟨["a", "b"], [[1, 2]]⟩, 1), (⟨["b", "c"], [[3, 4], [5, 6]]⟩, 2)]).labels = ["a", "b", "c"] ∧
+    (alignMatrices [(⟨["a", "b"], [[1, 2]]⟩, 1), (⟨["b", "c"], [[3, 4], [5, 6]]⟩, 2)]).m =
+      [[1, 2, 0], [0, 6, 8], [0, 10, 12]] := by decide +kernel
+example : (alignMatrices [(⟨["a", "b"], [[1, 2]]⟩, 3)]).labels = ["a", "b"] ∧
+    (alignMatrices [(⟨["a", "b"], [[1, 2]]⟩, 3)]).m = [[3, 6]] := by decide +kernel
+
+/-! ### combining megacomplex matrices -/
+
+theorem combine_labels_nodup (left right : LMat) (hl : left.labels.Nodup) (hr : right.labels.Nodup) :
+    (combine left right).labels.Nodup :=
+  combine_labels_nodup_lem left right hl hr
+
+theorem combine_labels_mem (left right : LMat) (l : String) :
+    l ∈ (combine left right).labels ↔ l ∈ left.labels ∨ l ∈ right.labels :=
+  combine_labels_mem_lem left right l
+
+/-- **The column of a shared compartment is the sum of the megacomplexes' columns**, a missing
+    label contributing zeros (2-D inputs with the same number of rows). -/
+theorem combine_col_d2 (ll lr : List String) (a b : Mat)
+    (hrows : b.length = a.length) (l : String)
+    (hl : l ∈ (combine ⟨ll, .d2 a⟩ ⟨lr, .d2 b⟩).labels) :
+    ∃ m, (combine ⟨ll, .d2 a⟩ ⟨lr, .d2 b⟩).body = .d2 m ∧
+      colOf (combine ⟨ll, .d2 a⟩ ⟨lr, .d2 b⟩).labels m l =
+        some (vadd ((colOf ll a l).getD (zeros a.length)) ((colOf lr b l).getD (zeros a.length))) :=
+  combine_col_d2_min ll lr a b hrows l hl
+
+/-- the combined 2-D matrix is well formed -/
+theorem combine_d2_shape (ll lr : List String) (a b : Mat) :
+    ∃ m, (combine ⟨ll, .d2 a⟩ ⟨lr, .d2 b⟩).body = .d2 m ∧ m.length = a.length ∧
+      ∀ r ∈ m, r.length = (combine ⟨ll, .d2 a⟩ ⟨lr, .d2 b⟩).labels.length :=
+  combine_d2_wf ll lr a b
+
+example : (combine ⟨["a", "b"], .d2 [[1, 2], [3, 4]]⟩ ⟨["b", "c"], .d2 [[5, 6], [7, 8]]⟩).labels = ["a", "b", "c"] ∧
+    colOf ["a", "b", "c"] (combine2 ["a", "b", "c"] ["a", "b"] ["b", "c"] [[1, 2], [3, 4]] [[5, 6], [7, 8]]) "b"
+      = some [7, 11] := by decide +kernel
+
+/-! ### every data point contributes one residual entry -/
+
+/-- **Unlinked group without global model: the residual part has one entry per data point.** -/
+theorem group_penalty_length_unlinked (mi : ModelItems) (g : Group) (res pens : Vec)
+    (hl : g.linked = false) (hg : ∀ d ∈ g.datasets, d.gmcs = [])
+    (hwf : ∀ d ∈ g.datasets, d.WF)
+    (h : groupPenaltyParts mi g = some (res, pens)) :
+    res.length = (g.datasets.map (fun d => d.nModel * d.nGlobal)).sum :=
+  group_penalty_length_unlinked_lem mi g res pens hl hg hwf h
+
+example : (∀ d ∈ Length.exampleGroup.datasets, d.WF) ∧ Length.exampleGroup.linked = false ∧
+    groupPenaltyParts {} Length.exampleGroup = some ([0, 0, 0, 0], []) :=
+  ⟨fun d hd => by
+      have : d = Length.exampleDataset := by simpa [Length.exampleGroup] using hd
+      rw [this]; exact Length.exampleDataset_wf,
+    rfl, Length.exampleGroup_parts⟩
 
 /-! ### full model: Kronecker structure -/
 
